@@ -114,7 +114,8 @@ def rt_path_event(i, rparts, via_specs, rng, probes):
         obj = dp.DataPath.from_part_specs(*specs)
     else:
         obj = dp.DataPath(*[gen.build_part(p) for p in rparts])
-    out, js = outcome_of(lambda: obj.to_part_specs())
+    # the two public serialisers of a path (to_json_like is documented as the same part specs)
+    out, js = outcome_of((lambda: obj.to_json_like()) if i % 3 == 0 else (lambda: obj.to_part_specs()))
     e["outcome"] = out
     if out != "ok":
         e["exc"] = out
